@@ -58,7 +58,7 @@ def match(source: str, pos: int) -> MatchResult:
             pending_property[0] = alloc_range(pool, start, end, delimiter)
         elif token_type == TokenType.PropertyValue:
             pending = pending_property[0]
-            if pending and pending[0] < pos < end:
+            if pending and pending[0] < pos < max(delimiter + 1, end):
                 result[0] = MatchResult('property', pending[0], delimiter + 1 if delimiter != -1 else end, start, end)
                 return False
             release_pending()
@@ -101,7 +101,7 @@ def balanced_outward(source: str, pos: int) -> list:
             prop[0] = alloc_range(pool, start, end, delimiter)
         elif token_type == TokenType.PropertyValue:
             p = prop[0]
-            if p and p[0] < pos < max(delimiter, end):
+            if p and p[0] < pos < max(delimiter + 1, end):
                 # Push full token and value range
                 push(result, (start, end))
                 push(result, (p[0], delimiter + 1 if delimiter != -1 else end))
@@ -197,7 +197,7 @@ def balanced_inward(source: str, pos: int) -> list:
         elif token_type == TokenType.PropertyValue:
             if pending_property[0]:
                 p = pending_property[0]
-                if p.start <= pos <= end:
+                if p.start <= pos <= max(delimiter, end):
                     # Direct hit into property, no need to look further
                     push(result, (p.start, delimiter + 1 if delimiter != -1 else end))
                     push(result, (start, end))
